@@ -1,10 +1,10 @@
 PLAN['C02'] = dict(
     level='exploration',
     units=std_units('C02', [('asan', 'sdcz', 10800, 200000), ('asan-vb', 'sdcz', 3600, 40000), ('asan-i64', 'sdcz', 2700, 40000)], chunk=100),
-    rule='seeded random matrices (11 pattern x 8 value classes; square n 1..50 and tall m>n through ?gstrf, square through ?gssv incl. row storage; thorough tail n<=300) '
+    rule='seeded random matrices (11 pattern x 8 value classes; square n 1..50 and tall m>n through ?gstrf, square through ?gssv incl. row storage; thorough tail n<=300; 45 % of the successful direct factorizations are followed by 1-2 refactorizations through ?gstrf on the same pattern with new values - tiny perturbation / unrelated / remembered pivots shrunk below the threshold / rows rescaled - with Fact = SamePattern_SameRowPerm (pivots kept or abandoned) or SamePattern, square and tall, each judged by the same oracles) '
          'x ColPerm (incl. caller permutation) x u in {1,.5,.1,.01,1e-3,1e-8} x SymmetricMode x tuning table; non-trivial = info 0 and n>=2; distinct = hash(pattern, ColPerm, route, storage, SymmetricMode, outcome)',
-    counter_names=['sum identity/bound per-mille', 'max identity/bound per-mille', 'columns where the diagonal was chosen although not the maximum (preference clause decisive)', 'near-threshold columns left undecided'],
+    counter_names=['sum identity/bound per-mille', 'max identity/bound per-mille', 'columns where the diagonal was chosen although not the maximum (preference clause decisive)', 'near-threshold columns left undecided', 'refactorizations through ?gstrf judged'],
     min_nontrivial={'quick': 500, 'thorough': 100000},
-    require_tags={'quick': ['route=gstrf', 'route=gssv', 'tall', 'NR', 'colperm=MY_PERMC', 'diagpref=decisive', 'multiplier>1', 'maxsnode=4', 'expansions=1']},
+    require_tags={'quick': ['route=gstrf', 'route=gssv', 'tall', 'NR', 'colperm=MY_PERMC', 'diagpref=decisive', 'multiplier>1', 'maxsnode=4', 'expansions=1', 'refactor=SameRowPerm', 'refactor=SamePattern', 'refactor-tall', 'refactor-square', 'reuse=kept', 'reuse=abandoned']},
     assumptions=['bound constant c = 8 (real) / 16 (complex)', 'complex multiplier bound uses sqrt(2)/u because the library compares |re|+|im|', 'diagonal-preference clause is one-sided with a 64 eps margin; near-threshold columns are undecided'],
 )
